@@ -278,8 +278,8 @@ impl Scenario for Subs {
             "C24" => ("exploration", "run = one subscription (interval 200..1000 ms) with 1-2 items sampled every 100 ms, queue sizes 1..12, both discard policies, one write per tick, publish requests always available, ModifyMonitoredItems growing/shrinking the queue at random points; oracle: bounded-queue reference model per notification (size bound, order, which entries survive, overflow info bit), modify never fails. non-trivial = an overflow or a resize happened; distinct = op/outcome hash.", vec!["queue_overflow", "queue_resize"]),
             "C25" => ("exploration", "run = items with data change filters (trigger x deadband none/absolute/percent x value) over Double variables; an application actor sets value/status/timestamps directly (delta 0, +-small, huge; Good/Uncertain/Bad); oracle: last-reported model per filter; an accepted filter must be able to report. non-trivial = history contains a status-only, timestamp-only or sub-deadband change; distinct = op/outcome hash.", vec!["status_only_change", "timestamp_only_change", "sub_deadband_change"]),
             "C26" => ("exploration", "run = C21-style history plus request-header timestamps {now, past, future, null, min, max}, timeout hints, wall-clock jumps of +-(1 ms .. 10 y) between steps and off-phase sleeps; oracle: no panic in any server task; BadTimeout only after the timeout elapsed since the request's timestamp. non-trivial = a clock fault or odd timestamp fired; distinct = op/outcome hash.", vec!["client_timestamp", "clock_jump_forward", "clock_jump_backward", "sleep_offphase"]),
-            "C27" => ("exploration", "run = 2-4 subscriptions with distinct priorities, all with a notification ready at every interval, and fewer publish requests than ready notifications; oracle: responses of one timer tick are in descending priority starting with the highest ready priority. non-trivial = a tick with fewer requests than ready notifications; distinct = op/outcome hash.", vec!["scarce_publish_requests"]),
-            _ => ("exploration", "run = C21-style history plus Republish {last, first, acknowledged, unknown} and acknowledgements {valid, duplicate, unknown sequence, unknown subscription} and subscription deletion; oracle: retained-set model (republished == original, not available after a Good acknowledgement, unknown acknowledgement -> BadSequenceNumberUnknown, retained message available while below the documented capacity). non-trivial = a republish or non-plain acknowledgement happened; distinct = op/outcome hash.", vec!["duplicate_ack", "unknown_ack", "republish_after_ack", "subscription_deleted"]),
+            "C27" => ("exploration", "run = 2-4 subscriptions with distinct priorities (0..=255, boundary values favoured, changed now and then by ModifySubscription), all with a notification ready at every interval, and fewer publish requests than ready notifications; oracle: responses of one timer tick are in descending priority starting with the highest ready priority. non-trivial = a tick with fewer requests than ready notifications; distinct = op/outcome hash.", vec!["scarce_publish_requests", "subscription_priority_modified"]),
+            _ => ("exploration", "run = C21-style history plus Republish {last, first, acknowledged, unknown} and acknowledgements {valid, newest only, duplicate in a later request, duplicate inside one request, unknown sequence, unknown subscription} and subscription creation / deletion / expiry; oracle: retained-set model (republished == original, not available after a Good acknowledgement, unknown or repeated acknowledgement -> BadSequenceNumberUnknown, a retained message is available while the retransmission queue cannot have been over 4 x subscriptions, counting unread responses and subscriptions created, deleted or possibly expired since the last read). non-trivial = a republish or non-plain acknowledgement happened; distinct = op/outcome hash.", vec!["duplicate_ack", "unknown_ack", "republish_after_ack", "subscription_deleted"]),
         };
         Info {
             level,
